@@ -35,7 +35,7 @@ TRUSTED = [
 # which monitor verdicts speak about which property (a verdict of another property is that property's check to report)
 KINDS = {
     "C09": {"id-mismatch", "id-out-of-bounds", "duplicate-id", "over-capacity", "accepted-after-close", "header-not-reset", "refused-with-request",
-            "refused-but-registered", "conservation", "managed-flag", "panic", "recycling", "harness"},
+            "refused-but-registered", "conservation", "managed-flag", "panic", "recycling", "harness", "explicit-id-race"},
     "C10": {"misrouted", "unknown-id-result", "delivery-count", "last-not-complete", "early-complete", "delivery-failed", "event-to-request",
             "wrong-pages", "panic", "harness"},
     "C16": {"not-done-after-close", "no-error-after-close", "registered-after-close", "done-vs-closed", "err-without-done", "accepted-after-close",
@@ -190,6 +190,12 @@ def standard(run, prop, which, extra_subs=()):
     if not pr["ok"]:
         broken.append("props/%s.v or a dependency no longer checks: %s %s" % (prop, pr["failed_at"], pr["errors"]))
     run.coverage["trusted_base"].extend(TRUSTED)
+    if run.tier == "thorough" and pr["ok"]:
+        with vlib.Lock():
+            rc, out = vlib.coqchk(prop)
+        run.coverage["coqchk"] = "ok" if rc == 0 else out[-400:]
+        if rc != 0:
+            broken.append("coqchk rejects props/%s.vo: %s" % (prop, out[-400:]))
 
     results, findings = [], []
     if "harness" not in fails:
